@@ -16,7 +16,21 @@ gate() {   # -> 0 if every theorem of Gen/LockCheck.v checks against the sources
   coqc -q -Q coq Deltio -Q $W/gen DeltioRun $W/gen/LockEdges.v >/dev/null 2>&1 || return 2
   coqc -q -Q coq Deltio -Q $W/gen DeltioRun $W/gen/LockCheck.v >$W/gen/out 2>&1
 }
+pushgate() {   # -> 0 if every theorem of Gen/PushCheck.v checks against the sources in $W/repo
+  mkdir -p $W/gen && rm -f $W/gen/*
+  $T/release/lockscan $W/repo $W/gen/LockEdges.v $W/gen/le.json || return 2
+  sed 's/From Deltio Require Import Gen.LockEdges\./From DeltioRun Require Import LockEdges./' coq/Gen/PushCheck.v > $W/gen/PushCheck.v
+  coqc -q -Q coq Deltio -Q $W/gen DeltioRun $W/gen/LockEdges.v >/dev/null 2>&1 || return 2
+  coqc -q -Q coq Deltio -Q $W/gen DeltioRun $W/gen/PushCheck.v >$W/gen/out 2>&1
+}
 bad=0
+if pushgate; then echo "ok    unchanged tree: Gen/PushCheck.v checks"; else echo "FAIL  unchanged tree is flagged by Gen/PushCheck.v"; tail -5 $W/gen/out; bad=1; fi
+for d in seeded/C14-r7-deletion-guard-only-around-the-pull/patch.diff; do
+  git -C $W/repo checkout -q -- . && git -C $W/repo apply $V/$d || { echo "FAIL  $d does not apply"; bad=1; continue; }
+  if pushgate; then echo "FAIL  $d is not flagged by Gen/PushCheck.v"; bad=1
+  else echo "ok    $d flagged by Gen/PushCheck.v: $(grep -o 'line [0-9]*' $W/gen/out | head -1)"; fi
+done
+git -C $W/repo checkout -q -- .
 if gate; then echo "ok    unchanged tree: all theorems check"; else echo "FAIL  unchanged tree is flagged"; cat $W/gen/out | tail -5; bad=1; fi
 for d in lockscan/selftest/*.diff seeded/C07-r4-push-loop-holds-registry-lock/patch.diff; do
   git -C $W/repo checkout -q -- . && git -C $W/repo apply $V/$d || { echo "FAIL  $d does not apply"; bad=1; continue; }
